@@ -82,6 +82,73 @@ def _walk_own(st: ast.AST):
             todo.append(c)
 
 
+def _propagate_copies(fn: ast.AST) -> None:
+    """`t = b` for an expansion temporary t (bound once) and a name b that is not rebound in the rest of the block, t being used
+    only there: t IS b (the same object) - its uses are spelled b and the copy is dropped (`points = self.points; if points is
+    None: return; points.append(..)` narrowing idiom of an expanded method)."""
+    stores: Dict[str, int] = {}
+    loads: Dict[str, int] = {}
+    for n in ast.walk(fn):
+        if isinstance(n, ast.Name):
+            d = stores if isinstance(n.ctx, ast.Store) else loads
+            d[n.id] = d.get(n.id, 0) + 1
+        elif isinstance(n, (ast.FunctionDef, ast.Lambda)) and n is not fn:
+            # names captured by closures are left alone
+            for k in ast.walk(n):
+                if isinstance(k, ast.Name):
+                    stores[k.id] = stores.get(k.id, 0) + 2
+
+    def do_block(block: List[ast.stmt]) -> None:
+        k = 0
+        while k < len(block):
+            st = block[k]
+            if isinstance(st, ast.Assign) and len(st.targets) == 1 and isinstance(st.targets[0], ast.Name) and isinstance(st.value, ast.Name) \
+                    and st.targets[0].id.startswith("__inl") and stores.get(st.targets[0].id) == 1 and st.value.id != st.targets[0].id:
+                a, b = st.targets[0].id, st.value.id
+                rest = block[k + 1:]
+                b_stored = any(isinstance(n, ast.Name) and n.id == b and isinstance(n.ctx, (ast.Store, ast.Del)) for r in rest for n in ast.walk(r))
+                a_loads = sum(1 for r in rest for n in ast.walk(r) if isinstance(n, ast.Name) and n.id == a and isinstance(n.ctx, ast.Load))
+                if not b_stored and a_loads == loads.get(a, 0):
+                    for r in rest:
+                        for n in ast.walk(r):
+                            if isinstance(n, ast.Name) and n.id == a:
+                                n.id = b
+                    loads[b] = loads.get(b, 0) + a_loads
+                    del block[k]
+                    continue
+            for fld in ("body", "orelse", "finalbody"):
+                sub = getattr(st, fld, None)
+                if isinstance(sub, list) and sub and isinstance(sub[0], ast.stmt):
+                    do_block(sub)
+            for h in getattr(st, "handlers", []) or []:
+                do_block(h.body)
+            k += 1
+    do_block(fn.body)
+
+
+def _drop_stores(body: List[ast.stmt], name: str) -> List[ast.stmt]:
+    class T(ast.NodeTransformer):
+        def visit_Assign(self, n):
+            if len(n.targets) == 1 and isinstance(n.targets[0], ast.Name) and n.targets[0].id == name:
+                if isinstance(n.value, (ast.Constant, ast.Name)):
+                    return None
+                return ast.copy_location(ast.Expr(value=n.value), n)
+            return n
+
+        def generic_visit(self, n):
+            super().generic_visit(n)
+            for fld in ("body", "orelse"):
+                if hasattr(n, fld) and isinstance(getattr(n, fld), list) and fld == "body" and not getattr(n, fld) and isinstance(n, (ast.If, ast.For, ast.While, ast.With, ast.Try)):
+                    n.body = [ast.copy_location(ast.Pass(), n)]
+            return n
+    out = []
+    for b in body:
+        r = T().visit(b)
+        if r is not None:
+            out.append(r)
+    return out
+
+
 def _strip_doc(body: List[ast.stmt]) -> List[ast.stmt]:
     if body and isinstance(body[0], ast.Expr) and isinstance(body[0].value, ast.Constant) and isinstance(body[0].value.value, str):
         return body[1:]
@@ -372,6 +439,9 @@ class Inliner:
             rv = last.value if last.value is not None else ast.Constant(value=None)
             if kind == "expr":
                 tail = [ast.Expr(value=rv)] if not isinstance(rv, (ast.Constant, ast.Name)) else []
+                if structured:
+                    # the result is not used: the stores to the result variable go (a branch left empty becomes `pass`)
+                    body = _drop_stores(body, ret)
             elif kind == "assign":
                 tail = [ast.Assign(targets=st.targets, value=rv)]
                 # `t = helper(..)` where the helper builds a local and returns it: the local IS t (no `t = local` copy is left behind)
@@ -452,6 +522,11 @@ class Inliner:
         for n in ast.walk(fn):
             if isinstance(n, ast.Name) and isinstance(n.ctx, ast.Store):
                 stores[n.id] = stores.get(n.id, 0) + 1
+            # `v = None` / `v: Optional[C] = None` before the conditional construction does not count as a second binding
+            if isinstance(n, ast.Assign) and len(n.targets) == 1 and isinstance(n.targets[0], ast.Name) and isinstance(n.value, ast.Constant) and n.value.value is None:
+                stores[n.targets[0].id] = stores.get(n.targets[0].id, 0) - 1
+            if isinstance(n, ast.AnnAssign) and isinstance(n.target, ast.Name) and (n.value is None or (isinstance(n.value, ast.Constant) and n.value.value is None)):
+                stores[n.target.id] = stores.get(n.target.id, 0) - 1
             if isinstance(n, ast.Assign) and len(n.targets) == 1 and isinstance(n.targets[0], ast.Name):
                 val = n.value
                 if isinstance(val, ast.IfExp) and isinstance(val.orelse, ast.Constant) and val.orelse.value is None:
@@ -733,6 +808,7 @@ class Inliner:
             if ast.dump(new) != before:
                 from .model import _SplitTupleAssign
                 new = _SplitTupleAssign().visit(new)
+                _propagate_copies(new)
                 ast.fix_missing_locations(new)
                 fi.raw_node = fi.node
                 self.prog._by_node.pop(id(fi.node), None)
